@@ -34,13 +34,24 @@ for p in patches:
     seed_prop = m.group(1) if m else None
     run = props or ([seed_prop] if own and seed_prop in allp else allp)
     fired = {}
-    for pr in run:
-        env = dict(os.environ, VERIF_REPO=SCR)
-        c = subprocess.run(["/verif/check", pr], capture_output=True, text=True, cwd="/verif", env=env)
+    env = dict(os.environ, VERIF_REPO=SCR)
+    # extract the facts of the patched tree once (three configurations in parallel), then run the checks in a pool
+    pre = [subprocess.Popen([sys.executable, "-m", "engine.facts", cfg], cwd="/verif", env=env, stdout=subprocess.DEVNULL, stderr=subprocess.DEVNULL)
+           for cfg in ("std", "alloc", "core")]
+    for q in pre:
+        q.wait()
+
+    def one(pr):
+        c = subprocess.run(["/verif/check", pr], capture_output=True, text=True, cwd="/verif", env=dict(env, VERIF_EVIDENCE_DIR="/tmp/seedtest-evidence"))
         keys = [l.strip() for l in c.stdout.splitlines() if " | " in l and "] " in l]
         rules = sorted({l.split("] ")[1].split(" | ")[0] for l in keys})
-        if c.returncode != 0:
-            fired[pr] = {"exit": c.returncode, "rules": rules, "first": keys[:2] or c.stdout.strip().splitlines()[-2:]}
+        return pr, c.returncode, rules, keys, c.stdout
+
+    from concurrent.futures import ThreadPoolExecutor
+    with ThreadPoolExecutor(max_workers=8) as ex:
+        for pr, rc, rules, keys, out in ex.map(one, run):
+            if rc != 0:
+                fired[pr] = {"exit": rc, "rules": rules, "first": keys[:2] or out.strip().splitlines()[-2:]}
     own_hit = seed_prop in fired and fired[seed_prop]["exit"] == 1
     any_hit = any(v["exit"] == 1 for v in fired.values())
     print("%s %-40s own=%s any=%s  %s" % ("CAUGHT" if any_hit else "MISSED", p.replace("/tmp/seed/out/", "").replace("/verif/seeded/", "seeded:"), own_hit, any_hit,
@@ -50,5 +61,12 @@ for p in patches:
             print("        %s" % l[:260])
     sys.stdout.flush()
     results[p] = fired
+    mp = os.path.join(os.path.dirname(p), "meta.json")
+    if p.startswith("/verif/seeded/") and os.path.exists(mp) and not props:
+        m_ = json.load(open(mp))
+        m_["caught_by"] = {k: v["rules"] for k, v in sorted(fired.items()) if v["exit"] == 1}
+        m_["checks_run"] = run
+        m_["inconclusive"] = sorted(k for k, v in fired.items() if v["exit"] not in (0, 1))
+        json.dump(m_, open(mp, "w"), indent=1)
 subprocess.check_call(["git", "-C", SCR, "checkout", "-q", "--", "."])
 json.dump(results, open("/tmp/seedtest-last.json", "w"), indent=1)
